@@ -271,6 +271,8 @@ def step (toks : List String) : String :=
   | ["bmp.set", i, x, y, c] => ((parseImage i).setBinary x.toInt! y.toInt! (c == "1")).render Bitmap.Image.render
   | ["bmp.xor", i, x, y, c] => ((parseImage i).xorBinary x.toInt! y.toInt! (c == "1")).render Bitmap.Image.render
   | ["bmp.clone", i] => "ok " ++ (parseImage i).render
+  | ["bmp.reuse", _, i] =>
+    ((parseImage i).onesCount).render (fun n => showNat n ++ " " ++ (parseImage i).render ++ " maskreuse=same")
   | ["bmp.new", a, b, c, d] => "ok " ++ (Bitmap.Image.new a.toInt! b.toInt! c.toInt! d.toInt!).render
   | ["bmp.ones", i] => ((parseImage i).onesCount).render showNat
   | ["bmp.point", i] =>
